@@ -21,7 +21,7 @@ ASSUMPTIONS = [
     'random-source stubs: random() in [0,1), expovariate(r) > 0 with ZeroDivisionError at r == 0, choice/sample/binomial = engine choice',
     'networkx / numpy internals executed concretely and trusted',
 ]
-OPTS = {'quick': {'max_validate': 6, 'validate_every': 7}, 'thorough': {'max_validate': 10, 'validate_every': 31}}
+OPTS = {'quick': {'max_validate': 6, 'validate_every': 7}, 'thorough': {'max_validate': 10, 'validate_every': 31, 'cfg_timeout': 1500}}
 MUST_EVALUATE = {'quick': ['t0=tmin', 'time-ordered', 'counts-sum-N', 'one-legal-move', 'sir-monotone', 'dies-out', 't<tmax', 't<=tmax-discrete', 'one-node-changes', 'counts-track-statuses']}
 
 
@@ -47,6 +47,8 @@ def configs(tier):
                             continue
                         if weights == 'both' and g == 'K3' and len(I0) == 1 and tier == 'quick':
                             continue    # >3000 weight-order paths: thorough tier only
+                        if n > 3 and entry != 'Gillespie_SIR' and ((g == 'S3' and 0 in I0 and not R0) or (g == 'P4' and len(I0) > 1 and not R0)):
+                            continue    # 4 nodes: event orderings from the hub / from two initial nodes exceed the per-configuration budget
                         for tmax in ('inf', 'sym'):
                             if tmax == 'sym' and (weights != 'none' or R0 or (full and (entry == 'Gillespie_SIR' or n > 3 or len(I0) > 1))):
                                 continue
